@@ -900,9 +900,28 @@ class TableBuilder:
     def move(self, cid, x):
         np = self.np
         cl = self.b.clamps[cid][1]
-        pos = np.array(cl.function(np.array(x, dtype=float).copy()), dtype=float)
-        self.ftab[(cid, self.Xi[cid](x))] = self.P(pos)
         j = self.cj[cid]
+        try:
+            pos = np.array(cl.function(np.array(x, dtype=float).copy()), dtype=float)
+        except ValueError:
+            # the clamp function itself refuses the parameters (e.g. a curve parameter outside the curve):
+            # for the optimizer this is an objective evaluation that raises ValueError, like a degenerate
+            # cell.  In the model: function(x) is a point on which every quality is undefined.
+            pos = np.full(3, np.nan)
+            pid = self.P(pos)
+            self.ftab[(cid, self.Xi[cid](x))] = pid
+            self.pts[j] = pos
+            for (lid, fol) in self.links.get(j, []):
+                self.ttab[(lid, pid)] = pid
+                self.pts[fol] = pos
+            self.prm[cid] = np.array(x, dtype=float)
+            key = tuple(self.state_ids())
+            if key not in self.gbad:
+                self.gbad.append(key)
+            if (j, key) not in self.jbad:
+                self.jbad.append((j, key))
+            return None
+        self.ftab[(cid, self.Xi[cid](x))] = self.P(pos)
         self.pts[j] = pos
         for (lid, fol) in self.links.get(j, []):
             img = pure_link_transform(self.link_objs[lid], pos)
@@ -1053,6 +1072,19 @@ Open Scope N_scope.
 # ------------------------------------------------------------------------------------------------
 
 
+def load_corpus():
+    """regression inputs (corpus/C13/*.json): cases on which a defect or a self-test mutation was observed, and
+    boundary cases; they run through the oracle and the Coq comparison on every check like the random ones"""
+    d = os.path.join(core.VERIF, "corpus", "C13")
+    specs = []
+    if os.path.isdir(d):
+        for name in sorted(os.listdir(d)):
+            if name.endswith(".json"):
+                with open(os.path.join(d, name)) as f:
+                    specs.append(json.load(f)["spec"])
+    return specs
+
+
 def describe(spec):
     return "%s %s clamps=%s links=%s method=%s it=%d min=%s" % (
         spec["kind"], "x".join(map(str, spec["dims"])), ",".join(c["type"] for c in spec["clamps"]),
@@ -1089,13 +1121,14 @@ class C13(Prop):
 
     def correspond(self, ctx):
         res = CorrResult()
-        res.rule = ("random lattices of 1..8 hexahedra / 2..9 quads with perturbed vertices, 1..4 clamps of every type, "
+        res.rule = ("regression corpus (corpus/C13) + random lattices of 1..8 hexahedra / 2..9 quads with perturbed vertices, 1..4 clamps of every type, "
                     "0..2 links, 4 methods, 1..3 iterations; minimiser = scripted adversary (8 kinds) or recorder around "
                     "scipy (full / capped); compared inside Coq: point array and clamp parameters at every scipy call and "
                     "at the end, backported vertices, per-iteration quality, escape of an exception; non-trivial = at "
                     "least one optimize_clamp call with a trial; distinct by spec")
-        n = ctx.n(140, 1500)
-        specs = []
+        n = ctx.n(124, 1500)
+        specs = load_corpus()
+        res.count("corpus", len(specs))
         for i in range(n):
             r = i / float(n)
             mini = "scripted" if r < 0.55 else ("real-capped" if r < 0.85 else "real")
